@@ -10,6 +10,7 @@ import (
 // sees who is blocked on what.
 
 type chanState struct {
+	ref    any // keeps the channel alive so its address is not reused within one execution
 	closed bool
 	sendq  []*waiter // parked senders (unbuffered only)
 	recvq  []*waiter // parked receivers (unbuffered only)
@@ -30,10 +31,10 @@ type selGroup struct {
 
 func chanKey[T any](ch chan T) uintptr { return *(*uintptr)(unsafe.Pointer(&ch)) }
 
-func (s *Sched) cst(k uintptr) *chanState {
+func (s *Sched) cst(k uintptr, ref any) *chanState {
 	st := s.chans[k]
 	if st == nil {
-		st = &chanState{}
+		st = &chanState{ref: ref}
 		s.chans[k] = st
 	}
 	return st
@@ -61,6 +62,9 @@ func firstLive(q []*waiter) *waiter {
 	}
 	return nil
 }
+
+// ChanObj returns the scheduler's identity of a channel (for events on it).
+func ChanObj[T any](ch <-chan T) any { return chanKey(bidirR(ch)) }
 
 func chEv(kind string, k uintptr) { Event(kind, k, 0) }
 
@@ -93,7 +97,7 @@ func sendNoPoint[T any](s *Sched, ch chan<- T, v T) {
 		Block("send on nil chan", func() bool { return false })
 	}
 	if cap(ch) > 0 {
-		st := s.cst(chanKey(bidir(ch)))
+		st := s.cst(chanKey(bidir(ch)), ch)
 		for {
 			if st.closed {
 				panic("send on closed channel")
@@ -107,7 +111,7 @@ func sendNoPoint[T any](s *Sched, ch chan<- T, v T) {
 			Block("chan send (buffered)", func() bool { return len(ch) < cap(ch) || st.closed })
 		}
 	}
-	st := s.cst(chanKey(bidir(ch)))
+	st := s.cst(chanKey(bidir(ch)), ch)
 	if st.closed {
 		panic("send on closed channel")
 	}
@@ -186,7 +190,7 @@ func recvNoPoint[T any](s *Sched, ch <-chan T) (T, bool) {
 	if ch == nil {
 		Block("recv on nil chan", func() bool { return false })
 	}
-	st := s.cst(chanKey(bidirR(ch)))
+	st := s.cst(chanKey(bidirR(ch)), ch)
 	for {
 		if v, ok, did := tryRecvNow(s, ch, st); did {
 			chEv("recvd", chanKey(bidirR(ch)))
@@ -244,7 +248,7 @@ func Close[T any](ch chan<- T) {
 	}
 	Point("close", "")
 	close(ch)
-	s.cst(chanKey(bidir(ch))).closed = true
+	s.cst(chanKey(bidir(ch)), ch).closed = true
 	chEv("closed", chanKey(bidir(ch)))
 }
 
@@ -288,7 +292,7 @@ func (c *RCase[T]) ready(s *Sched) bool {
 	if c.ch == nil {
 		return false
 	}
-	st := s.cst(chanKey(bidirR(c.ch)))
+	st := s.cst(chanKey(bidirR(c.ch)), c.ch)
 	if recvReady(c.ch, st) {
 		return true
 	}
@@ -312,7 +316,7 @@ func (c *RCase[T]) perform(s *Sched) bool {
 	if c.ch == nil {
 		return false
 	}
-	st := s.cst(chanKey(bidirR(c.ch)))
+	st := s.cst(chanKey(bidirR(c.ch)), c.ch)
 	v, ok, did := tryRecvNow(s, c.ch, st)
 	if did {
 		c.val, c.ok, c.got = v, ok, true
@@ -327,7 +331,7 @@ func (c *RCase[T]) park(s *Sched, g *selGroup, idx int) {
 	c.w = &waiter{group: g, idx: idx}
 	g.ws = append(g.ws, c.w)
 	if cap(c.ch) == 0 {
-		st := s.cst(chanKey(bidirR(c.ch)))
+		st := s.cst(chanKey(bidirR(c.ch)), c.ch)
 		st.recvq = append(st.recvq, c.w)
 	}
 }
@@ -337,7 +341,7 @@ func (c *RCase[T]) unpark(s *Sched) {
 		return
 	}
 	if cap(c.ch) == 0 {
-		st := s.cst(chanKey(bidirR(c.ch)))
+		st := s.cst(chanKey(bidirR(c.ch)), c.ch)
 		st.recvq = removeWaiter(st.recvq, c.w)
 	}
 }
@@ -366,7 +370,7 @@ func (c *SCase[T]) ready(s *Sched) bool {
 	if c.ch == nil {
 		return false
 	}
-	st := s.cst(chanKey(bidir(c.ch)))
+	st := s.cst(chanKey(bidir(c.ch)), c.ch)
 	if st.closed {
 		return true // will panic, as in Go
 	}
@@ -380,7 +384,7 @@ func (c *SCase[T]) perform(s *Sched) bool {
 	if !c.ready(s) {
 		return false
 	}
-	st := s.cst(chanKey(bidir(c.ch)))
+	st := s.cst(chanKey(bidir(c.ch)), c.ch)
 	if st.closed {
 		panic("send on closed channel")
 	}
@@ -405,7 +409,7 @@ func (c *SCase[T]) park(s *Sched, g *selGroup, idx int) {
 	c.w = &waiter{group: g, idx: idx, val: c.v}
 	g.ws = append(g.ws, c.w)
 	if cap(c.ch) == 0 {
-		st := s.cst(chanKey(bidir(c.ch)))
+		st := s.cst(chanKey(bidir(c.ch)), c.ch)
 		st.sendq = append(st.sendq, c.w)
 	}
 }
@@ -415,7 +419,7 @@ func (c *SCase[T]) unpark(s *Sched) {
 		return
 	}
 	if cap(c.ch) == 0 {
-		st := s.cst(chanKey(bidir(c.ch)))
+		st := s.cst(chanKey(bidir(c.ch)), c.ch)
 		st.sendq = removeWaiter(st.sendq, c.w)
 	}
 }
